@@ -152,6 +152,28 @@ theorem loop_spec (sel : Int) (tol : τ) (rem i nconv nres : Nat) (s : St φ ρ 
           · left; exact h'
           · right; omega
 
+/-- if the loop leaves before `maxit` is exhausted it left through the `break`, right after the flags were evaluated on the
+    very state it returns -/
+theorem loop_break_fresh (sel : Int) (tol : τ) (rem i nconv nres : Nat) (s : St φ ρ ε κ)
+    (hl : (loop K c sel tol rem i nconv nres s).exn = none) (hlt : (loop K c sel tol rem i nconv nres s).i < i + rem) :
+    (loop K c sel tol rem i nconv nres s).st.ritzConv = convFlags K c tol (loop K c sel tol rem i nconv nres s).st := by
+  induction rem generalizing i nconv nres s with
+  | zero => simp [loop] at hlt
+  | succ rem ih =>
+    unfold loop at hl hlt ⊢
+    dsimp only at hl hlt ⊢
+    split
+    · rfl
+    · rename_i hnc
+      rw [if_neg hnc] at hl hlt
+      split
+      · rename_i s2 e heq
+        rw [heq] at hl; simp at hl
+      · rename_i s2 heq
+        rw [heq] at hl hlt
+        dsimp only at hl hlt
+        exact ih (i + 1) _ _ s2 hl (by omega)
+
 theorem sortRitz_frame (rule : Int) (s : St φ ρ ε κ) :
     (sortRitz K c rule s).1.info = s.info ∧ (sortRitz K c rule s).1.niter = s.niter ∧
     (sortRitz K c rule s).1.nmatop = s.nmatop ∧ (sortRitz K c rule s).1.fac = s.fac := by
@@ -201,19 +223,49 @@ theorem sortRitz_flags (rule : Int) (s s' : St φ ρ ε κ) (h : sortRitz K c ru
 
 /-- the state after the initial factorization inside `compute` -/
 def afterFactorize (s : St φ ρ ε κ) : St φ ρ ε κ :=
-  { s with fac := (K.factorize 1 c.ncv s.fac).fac, nmatop := s.nmatop + (K.factorize 1 c.ncv s.fac).ops }
+  { s with fac := (K.factorize (max 1 (K.facDim s.fac)) c.ncv s.fac).fac,
+           nmatop := s.nmatop + (K.factorize (max 1 (K.facDim s.fac)) c.ncv s.fac).ops }
+
+/-- after the post-loop refresh the flags are ALWAYS the ones counted by `nconv`, and there are `nev` of them -/
+theorem refresh_spec (sel : Int) (tol : τ) (maxit : Nat) (s2 : St φ ρ ε κ) :
+    (refresh K c tol maxit (loop K c sel tol maxit 0 0 0 s2)).2 = countTrue (refresh K c tol maxit (loop K c sel tol maxit 0 0 0 s2)).1.ritzConv ∧
+    (refresh K c tol maxit (loop K c sel tol maxit 0 0 0 s2)).1.ritzConv.length = c.nev ∧
+    (refresh K c tol maxit (loop K c sel tol maxit 0 0 0 s2)).1.info = s2.info ∧
+    (refresh K c tol maxit (loop K c sel tol maxit 0 0 0 s2)).1.niter = s2.niter ∧
+    s2.nmatop ≤ (refresh K c tol maxit (loop K c sel tol maxit 0 0 0 s2)).1.nmatop := by
+  have hL := loop_spec K c sel tol maxit 0 0 0 s2
+  unfold refresh
+  split
+  · exact ⟨rfl, convFlags_length K c tol _, hL.1, hL.2.1, hL.2.2.1⟩
+  · rename_i hlt
+    have hm : 0 < maxit := by omega
+    have := hL.2.2.2.2.2.2.2.2.1 hm
+    exact ⟨this.1, this.2, hL.1, hL.2.1, hL.2.2.1⟩
+
+/-- the flags after the refresh are exactly the convergence test evaluated on the state they are stored in (fresh), provided the
+    loop itself did not end by an exception -/
+theorem refresh_fresh (sel : Int) (tol : τ) (maxit : Nat) (s2 : St φ ρ ε κ)
+    (hl : (loop K c sel tol maxit 0 0 0 s2).exn = none) :
+    (refresh K c tol maxit (loop K c sel tol maxit 0 0 0 s2)).1.ritzConv =
+      convFlags K c tol (refresh K c tol maxit (loop K c sel tol maxit 0 0 0 s2)).1 ∧ True := by
+  refine ⟨?_, trivial⟩
+  unfold refresh
+  split
+  · rfl
+  · rename_i hlt
+    exact loop_break_fresh K c sel tol maxit 0 0 0 s2 hl (by omega)
 
 /-- a normal return of `compute` went through every stage without an exception -/
 theorem compute_ok_unfold (sel : Int) (maxit : Nat) (tol : τ) (sorting : Int) (s : St φ ρ ε κ) (r : Nat)
     (h : (compute K c sel maxit tol sorting s).out = .ok r) :
-    ∃ s2 s4, (K.factorize 1 c.ncv s.fac).exn = none ∧
+    ∃ s2 s4, (K.factorize (max 1 (K.facDim s.fac)) c.ncv s.fac).exn = none ∧
       retrieve K c sel (afterFactorize K c s) = (s2, none) ∧
       (loop K c sel tol maxit 0 0 0 s2).exn = none ∧
-      sortRitz K c sorting (loop K c sel tol maxit 0 0 0 s2).st = (s4, none) ∧
+      sortRitz K c sorting (refresh K c tol maxit (loop K c sel tol maxit 0 0 0 s2)).1 = (s4, none) ∧
       (compute K c sel maxit tol sorting s).st =
         { s4 with niter := s4.niter + ((loop K c sel tol maxit 0 0 0 s2).i + 1),
-                  info := if (loop K c sel tol maxit 0 0 0 s2).nconv ≥ c.nev then .successful else .notConverging } ∧
-      r = min c.nev (loop K c sel tol maxit 0 0 0 s2).nconv ∧
+                  info := if (refresh K c tol maxit (loop K c sel tol maxit 0 0 0 s2)).2 ≥ c.nev then .successful else .notConverging } ∧
+      r = min c.nev (refresh K c tol maxit (loop K c sel tol maxit 0 0 0 s2)).2 ∧
       (compute K c sel maxit tol sorting s).i = (loop K c sel tol maxit 0 0 0 s2).i ∧
       (compute K c sel maxit tol sorting s).restarts = (loop K c sel tol maxit 0 0 0 s2).restarts := by
   unfold compute at h ⊢
@@ -245,20 +297,23 @@ theorem compute_error_info (sel : Int) (maxit : Nat) (tol : τ) (sorting : Int) 
   · simp
   · split
     · rename_i s2 e2 hr
-      have := retrieve_frame K c sel { s with fac := (K.factorize 1 c.ncv s.fac).fac, nmatop := s.nmatop + (K.factorize 1 c.ncv s.fac).ops }
+      have := retrieve_frame K c sel (afterFactorize K c s)
+      unfold afterFactorize at this
       rw [hr] at this; simpa using ⟨this.2.1, this.2.2.1⟩
     · rename_i s2 hr
-      have hrf := retrieve_frame K c sel { s with fac := (K.factorize 1 c.ncv s.fac).fac, nmatop := s.nmatop + (K.factorize 1 c.ncv s.fac).ops }
+      have hrf := retrieve_frame K c sel (afterFactorize K c s)
+      unfold afterFactorize at hrf
       rw [hr] at hrf
       have hl := loop_spec K c sel tol maxit 0 0 0 s2
+      have hR := refresh_spec K c sel tol maxit s2
       split
       · dsimp only; exact ⟨by rw [hl.1, hrf.2.1], by rw [hl.2.1, hrf.2.2.1]⟩
       · split
         · rename_i s4 e4 hs
-          have hsf := sortRitz_frame K c sorting (loop K c sel tol maxit 0 0 0 s2).st
+          have hsf := sortRitz_frame K c sorting (refresh K c tol maxit (loop K c sel tol maxit 0 0 0 s2)).1
           rw [hs] at hsf
           dsimp only at hsf ⊢
-          exact ⟨by rw [hsf.1, hl.1, hrf.2.1], by rw [hsf.2.1, hl.2.1, hrf.2.2.1]⟩
+          exact ⟨by rw [hsf.1, hR.2.2.1, hrf.2.1], by rw [hsf.2.1, hR.2.2.2.1, hrf.2.2.1]⟩
         · -- normal return contradicts h
           rename_i hf _ _ hle _ _ hs
           rw [hf] at h; dsimp only at h; rw [hr] at h; dsimp only at h; rw [hle] at h; dsimp only at h; rw [hs] at h
